@@ -450,7 +450,18 @@ def discharge(F, sites, envs):
     PRED[0] = _pred_factory(F)
     RETRANGE[0] = _retrange_factory(F)
     by_fn = {}
+    # slice-window operations of the text parser itself, when the evaluation-based reader model (rmodel) has replayed the parser on
+    # every input length of a dense range and every combination of abstract outcomes without any of them going out of range
+    evaluated = None
     for s in sites:
+        if s.kind in ("index", "call") and s.what in ("index", "index_mut", "split_at", "split_at_mut") and s.body.path.endswith("FuzzyHashType>::from_str_bytes") \
+                and "hash::inner::FuzzyHash<" in s.body.path:
+            if evaluated is None:
+                RM = layout.text_reader_evaluated(F)
+                evaluated = bool(RM is not None and RM["body"].path == s.body.path and not any("panic" in x for x in RM["bad"]))
+            if evaluated:
+                s.idioms.add("in-range-by-evaluation-of-the-parser")
+                continue
         by_fn.setdefault(s.body.path, []).append(s)
     for path, ss in by_fn.items():
         b = ss[0].body
